@@ -1,7 +1,7 @@
 (* C02 proofs, part 2: every walk reads its parent only through [get_path (node_path n)] (and the
    __skipErrors flag of the enclosing object); scalar positions. *)
 From Coq Require Import Lia ZifyN ZifyBool.
-From Gv Require Import lib.Bytes lib.Json C02.Model C02.Spec C02.ProofsBase.
+From Gv Require Import lib.Bytes lib.Json C02.Model C02.Spec C02.ProofsBase C02.ProofsPaths.
 Open Scope N_scope.
 
 Lemma render_ext : forall n a b tns r,
@@ -75,16 +75,93 @@ Proof.
       repeat split; try congruence; try (intros _; eexists; split; reflexivity).
 Qed.
 
-(* shape of well-formed plans *)
-Lemma plan_wf_path : forall as_item depth n,
-  plan_wf as_item depth n = true -> has_path_kind n = true ->
-  if as_item then node_path n = [] else exists k, node_path n = [k].
+(* ---- the same, looking through flattened objects (empty path): a walk reads the enclosing value
+   only at the node's [rpaths], plus -- for a flattened object -- its being an object and its
+   runtime type ---- *)
+Lemma in_rpaths_own : forall n, has_path_kind n = true ->
+  (forall nl ty poss inacc unres fields, n <> NObj [] nl ty poss inacc unres fields) ->
+  In (node_path n) (rpaths n).
+Proof. intros n Hk Hn. rewrite rpaths_not_flat by assumption. left. reflexivity. Qed.
+
+Definition render_ext_at (n : node) : Prop :=
+  forall a b tns r, same_head a b ->
+    (forall q, In q (rpaths n) -> get_path q a = get_path q b) ->
+    render n a tns r = render n b tns r.
+
+Lemma rd_fields_ext : forall nl tns' fs,
+  Forall (fun f => render_ext_at (fval f)) fs ->
+  forall a b, same_head a b -> (forall q, In q (frpaths fs) -> get_path q a = get_path q b) ->
+  forall c, rd_fields nl a tns' fs c = rd_fields nl b tns' fs c.
 Proof.
-  intros as_item depth n H Hk.
-  assert ((if as_item then match node_path n with [] => true | _ => false end
-           else single_key (node_path n)) = true) as Hp.
-  { destruct n; try discriminate;
-      (rewrite plan_wf_obj_eq in H || rewrite plan_wf_arr_eq in H || simpl in H);
-      apply andb_true_iff in H; destruct H as [H _]; exact H. }
-  destruct as_item; destruct (node_path n) as [|k [|k2 r]]; try discriminate; eauto.
+  intros nl tns' fs. induction fs as [|[name on pon auth child] rest IH]; intros HF a b Hh Hg c; [reflexivity|].
+  pose proof (Forall_inv HF) as Hch. cbn [fval] in Hch. pose proof (Forall_inv_tail HF) as HFr.
+  rewrite frpaths_cons in Hg.
+  assert (forall c, rd_fields nl a tns' rest c = rd_fields nl b tns' rest c) as Hrest.
+  { apply IH; auto. intros q Hq. apply Hg. apply in_or_app. right. exact Hq. }
+  assert (render child a tns' false = render child b tns' false) as Hc.
+  { apply Hch; auto. intros q Hq. apply Hg. apply in_or_app. left. exact Hq. }
+  cbn [rd_fields]. fold (rd_fields nl a tns'). fold (rd_fields nl b tns').
+  rewrite !Hrest, Hc. reflexivity.
 Qed.
+
+Theorem render_ext_gen : forall n, render_ext_at n.
+Proof.
+  induction n using node_ind'; intros a b tns r Hh Hg;
+    try reflexivity;
+    try (specialize (Hg _ (or_introl eq_refl)); cbn [node_path] in Hg;
+         cbn [render]; unfold scalar_render; rewrite Hg; reflexivity).
+  - (* object *)
+    destruct p as [|k pr].
+    + rewrite rpaths_obj_nil in Hg. rewrite !render_obj_eq. cbv zeta. cbn [get_path].
+      destruct Hh as [->|(m & m' & -> & -> & Htn)]; [reflexivity|].
+      cbn [is_null_or_missing]. rewrite Htn.
+      destruct (tn_bad ty poss (typename_of (JObj m'))); [reflexivity|].
+      rewrite (rd_fields_ext nl (typename_of (JObj m') :: tns) fields H (JObj m) (JObj m')); auto.
+      right. eauto 6.
+    + apply render_ext. intros _. apply Hg. left. reflexivity.
+Qed.
+
+Section ExtGen.
+  Variable deny : bytes -> bytes -> bool.
+
+  Definition complete_ext_at (n : node) : Prop :=
+    forall a b path tns, same_head a b ->
+      (forall q, In q (rpaths n) -> (get_path q a = get_path q b) /\
+          (forall pth, nonnull_error pth q a = nonnull_error pth q b)) ->
+      complete deny n a path tns = complete deny n b path tns.
+
+  Lemma comp_fields_ext : forall path' tns' tn fs,
+    Forall (fun f => complete_ext_at (fval f)) fs ->
+    forall a b, same_head a b ->
+      (forall q, In q (frpaths fs) -> (get_path q a = get_path q b) /\
+          (forall pth, nonnull_error pth q a = nonnull_error pth q b)) ->
+      comp_fields deny a path' tns' tn fs = comp_fields deny b path' tns' tn fs.
+  Proof.
+    intros path' tns' tn fs. induction fs as [|[name on pon auth child] rest IH]; intros HF a b Hh Hg; [reflexivity|].
+    pose proof (Forall_inv HF) as Hch. cbn [fval] in Hch. pose proof (Forall_inv_tail HF) as HFr.
+    rewrite frpaths_cons in Hg.
+    assert (comp_fields deny a path' tns' tn rest = comp_fields deny b path' tns' tn rest) as Hrest.
+    { apply IH; auto. intros q Hq. apply Hg. apply in_or_app. right. exact Hq. }
+    assert (complete deny child a path' tns' = complete deny child b path' tns') as Hc.
+    { apply Hch; auto. intros q Hq. apply Hg. apply in_or_app. left. exact Hq. }
+    cbn [comp_fields]. fold (comp_fields deny a path' tns' tn). fold (comp_fields deny b path' tns' tn).
+    rewrite Hrest, Hc. reflexivity.
+  Qed.
+
+  Theorem complete_ext_gen : forall n, complete_ext_at n.
+  Proof.
+    induction n using node_ind'; intros a b path tns Hh Hg;
+      try reflexivity;
+      try (apply complete_ext; intros _; [apply (Hg _ (or_introl eq_refl)) | apply (Hg _ (or_introl eq_refl))]).
+    destruct p as [|k pr].
+    - rewrite rpaths_obj_nil in Hg. rewrite !complete_obj_eq. cbv zeta. cbn [get_path].
+      destruct unres; [reflexivity|].
+      destruct Hh as [->|(m & m' & -> & -> & Htn)]; [reflexivity|].
+      rewrite Htn.
+      destruct (tn_bad ty poss (typename_of (JObj m'))); [reflexivity|].
+      rewrite (comp_fields_ext (push_names path []) (typename_of (JObj m') :: tns) (typename_of (JObj m')) fields H
+                               (JObj m) (JObj m')); auto.
+      right. eauto 6.
+    - apply complete_ext; intros _; [apply (Hg _ (or_introl eq_refl)) | apply (Hg _ (or_introl eq_refl))].
+  Qed.
+End ExtGen.
